@@ -90,6 +90,8 @@ def build_all(need_overlay=False):
             if rc != 0:
                 br.go_ok = False
                 br.go_log += "overlay build failed:\n%s\n" % out[-3000:]
+            elif SHIM_NOTE:
+                br.notes.append(SHIM_NOTE)
         # 3. regenerate constants
         constgen = os.path.join(BIN, "constgen")
         gen = os.path.join(COQ, "Gen", "Consts.v")
@@ -166,13 +168,28 @@ def build_overlay(env):
     json.dump({"Replace": repl}, open(ovj, "w"))
     log = ""
     rcs = 0
+    global SHIM_NOTE
+    SHIM_NOTE = None
     for m in mains:
         name = "ov_" + os.path.basename(m)
-        rc, out = sh(["go", "build", "-tags", "verif", "-overlay", ovj, "-o", os.path.join(BIN, name), "./" + m],
+        rc, out = sh(["go", "build", "-tags", "verif,verifshim", "-overlay", ovj, "-o", os.path.join(BIN, name), "./" + m],
                      cwd=REPO, env=env)
+        if rc != 0:
+            # the export shims name unexported identifiers of /repo; a refactoring that renames one of them says nothing about a
+            # property: build without the shims (the three operations that need them answer "unavailable")
+            rc2, out2 = sh(["go", "build", "-tags", "verif", "-overlay", ovj, "-o", os.path.join(BIN, name), "./" + m],
+                           cwd=REPO, env=env)
+            if rc2 == 0:
+                SHIM_NOTE = ("the harness's export shims into unexported functions of /repo no longer compile (%s); built without them: "
+                             "token-level oracles use the model's token stream, the unit comparison of addImport is skipped, "
+                             "everything else runs through the exported API" % " ".join(out.split())[-200:])
+                rc, out = rc2, out2
         rcs |= rc
         log += out
     return rcs, log
+
+
+SHIM_NOTE = None
 
 
 FORBIDDEN = re.compile(r"\b(Admitted|admit|Axiom|Axioms|Parameter|Parameters|Conjecture|Hypothesis|Variable)\b|Unset Guard|bypass_check|type-in-type|impredicative-set|Admit Obligations")
